@@ -75,6 +75,9 @@ class MCNP_Problem:
             cells = Cells(cells)
         if cells is self.cells:
             return
+        # check the new cells (a number used twice) before the current ones are dropped:
+        # members of a free-standing collection can have been renumbered since it was built
+        Cells(cells.objects)
         self.cells.clear()
         self.cells.extend(cells)
 
